@@ -420,6 +420,93 @@ def reuse_histories(T, O, b, r, res, count, dist):
     return calls
 
 
+# ---------------------------------------------------------------- C12v: values, input against output
+
+# The guard `shaped` of C12_value_preserved and its conclusion, evaluated by Coq with the Coq semantics
+# `holds_full` (values = code points, 12 field values around the digits, both default operators, two atom
+# valuations) on the IMPLEMENTATION's outputs: inside the guard the output must have the value of the input.
+# (The theorem is about the model's output; model == implementation is the correspondence.)  The vocabulary is
+# in the model file coq/model/OpenRangeValue.v (definitions only), so it is evaluated in the same pass.
+C12V_DEFS = (
+    "Definition bvx (b : item) : option N :=\n"
+    "  match Erase.erase b with\n"
+    "  | Term KWord _ [42] => None\n"
+    "  | Term _ _ (c :: _) => Some c\n"
+    "  | _ => Some 0\n"
+    "  end.\n"
+    "Definition vals : list N := [47;48;49;50;51;52;53;54;55;56;57;58].\n"
+    "Definition fvx (v : N) (cx : list str) : N := v + 2 * N.of_nat (length cx).\n"
+    "Definition opx (salt : N) (cx : list str) (t : item) : bool :=\n"
+    "  match t with\n"
+    "  | Term _ _ (c :: _) => N.even (c + salt + N.of_nat (length cx))\n"
+    "  | _ => N.even (N.of_nat (size_of t) + salt)\n"
+    "  end.\n"
+    "Definition hfx (d : bool) (v salt : N) (t : item) : bool :=\n"
+    "  holds_full N N.leb bvx (fvx v) (opx salt) d [] t.\n"
+    "Definition same_value (t o : item) : bool :=\n"
+    "  forallb (fun v => forallb (fun salt => forallb (fun d => Bool.eqb (hfx d v salt o) (hfx d v salt t))\n"
+    "                                           [true; false]) [0; 1]) vals.\n"
+    "Definition chk_value (c : bool * str * item * option item) : bool :=\n"
+    "  let '(mg, ah, t, o) := c in\n"
+    "  negb (shaped t) || match o with Some out => same_value t out | None => false end.\n"
+    "Definition chk_outside (t : item) : bool := negb (shaped t).")
+C12V_IMPORTS = "Base Decimal Tree TreeEq Eq OpenRange OpenRangeValue Erase"
+
+
+def c12v_guard_coverage(res, inputs, dist, value_failures):
+    """how many generated inputs are inside the guard `shaped` of C12_value_preserved (evaluated by Coq), and the
+    canary of the value check"""
+    canary = ("(false, [32], ORange KFrom meta0 (Term KWord meta0 [49]) true, "
+              "Some (Range meta0 (Term KWord meta0 [49]) (Term KWord meta0 [42]) false true))")
+    bad = lib.eval_cases("C12v", C12V_IMPORTS, C12V_DEFS, [canary], "chk_value", shard=10)
+    assert bad == [0], "C12v canary (inclusiveness flipped by the conversion) not detected"
+    inside = lib.eval_cases("C12v", C12V_IMPORTS, C12V_DEFS, inputs, "chk_outside", shard=300)
+    dist["c12v_value_guard"] = {"inputs": len(inputs), "inside_shaped": len(inside)}
+    res.notes.append("C12v: %d of %d generated inputs are inside the guard `shaped` of C12_value_preserved; on %s "
+                     "(merge on and off) the implementation's output has the value of the input under Coq's "
+                     "holds_full (12 field values, both default operators, 2 atom valuations)"
+                     % (len(inside), len(inputs),
+                        "all of them" if not value_failures else "all but %d calls" % value_failures))
+
+
+def c12v_replays(T, O, res):
+    """the witnesses and examples of props/C12v.v replayed on the implementation"""
+    from decimal import Decimal
+    from luqum.parser import parser
+    f = T.Fuzzy(T.Word("a"))
+    f.degree = Decimal(2)            # attribute reassigned after construction: EqSpec.wf_node is broken
+    out = O()(f)
+    ok = (out.degree == Decimal("0.5") and f.degree == Decimal(2) and out._implicit_degree)
+    if not ok:
+        res.disagreements.append({"witness": "C12_untouched_wf_needed", "input_degree": str(f.degree),
+                                  "output_degree": str(out.degree)})
+    g = T.Fuzzy(T.Word("a"), 2)      # constructor-built: the degree is kept
+    if O()(g).degree != Decimal(2):
+        res.failures.append(({"why": "the degree of a constructor-built Fuzzy is not kept", "tree": "a~2"}, None))
+    expect = {
+        ("a:>=1 AND a:<5 AND b:[* TO 3} OR NOT c:>2", False):
+            "a:[1  TO *]AND a:[* TO 5 }AND b:[* TO 3} OR NOT c:{2 TO *]",
+        ("a:>=1 AND a:<5 AND b:[* TO 3} OR NOT c:>2", True):
+            "a:[1  TO *]AND a:[* TO 5 }AND b:[* TO 3} OR NOT c:{2 TO *]",
+        ("a:(>=1 AND <5 AND [* TO 3}) OR NOT c:>2", False):
+            "a:([1  TO *]AND [* TO 5 }AND [* TO 3}) OR NOT c:{2 TO *]",
+        ("a:(>=1 AND <5 AND [* TO 3}) OR NOT c:>2", True):
+            "a:([1  TO 5 }AND [* TO 3}) OR NOT c:{2 TO *]",
+    }
+    differ = 0
+    for (q, mg), want in expect.items():
+        got = str(O(merge_ranges=mg)(parser.parse(q)))
+        if got != want:
+            differ += 1
+            res.disagreements.append({"example": "C12v_q1/q2", "query": q, "merge": mg, "coq": want, "impl": got})
+    res.notes.append("C12v witnesses replayed on the implementation: Fuzzy(Word('a')) with degree reassigned to 2 "
+                     "after construction is copied with degree %s (C12_untouched_wf_needed: the wf_node guard is "
+                     "needed; not a defect, constructors establish the invariant); examples q1/q2: %s"
+                     % (out.degree, "print as in C12v_q1 / C12v_q2" if not differ
+                        else "%d of 4 outputs DIFFER from the Coq examples" % differ))
+
+
+
 # ---------------------------------------------------------------- correspondence
 
 def correspond(model_ok, res):
@@ -486,6 +573,7 @@ def correspond(model_ok, res):
         trees.append((b.wrap(op), "sampled"))
 
     cases, payloads = [], []
+    inputs_g = []     # the Gallina input trees, one per input (C12v guard coverage)
     seen = set()
     sentinel0 = sentinel_state(OpenRangeTransformer)
     dist = {"tag": {}, "merges_performed": {}, "root_class": {}, "operand_count": {}}
@@ -495,6 +583,7 @@ def correspond(model_ok, res):
         except lib.Unmodelled:
             continue
         desc = gentree.describe(tree)
+        inputs_g.append(before)
         ah = " " if tag == "exhaustive-core" else r.choice(ADD_HEADS)
         outs = {}
         for merge in (False, True):
@@ -557,22 +646,32 @@ def correspond(model_ok, res):
                 "range or a comparison" % (4 if quick else 5, maxlen))
     res.samples = payloads[40:46]
     res.distribution = dist
+    c12v_replays(T, OpenRangeTransformer, res)
     if not model_ok:
         res.model_error = "model did not build"
         return res
     defs = ("Definition chk (c : bool * str * item * option item) : bool :=\n"
-            "  let '(mg, ah, t, o) := c in oitem_beq (open_range mg ah t) o.")
+            "  let '(mg, ah, t, o) := c in oitem_beq (open_range mg ah t) o.\n" + C12V_DEFS + "\n"
+            "Definition chk_all (c : bool * str * item * option item) : bool := chk c && chk_value c.")
     canary = ("(true, [32], Op KAnd meta0 [Range meta0 (Term KWord meta0 [49]) (Term KWord meta0 [42]) true true; "
               "Range meta0 (Term KWord meta0 [42]) (Term KWord meta0 [53]) true true], "
               "Some (Op KAnd meta0 [Range meta0 (Term KWord meta0 [49]) (Term KWord meta0 [42]) true true; "
               "Range meta0 (Term KWord meta0 [42]) (Term KWord meta0 [53]) true true]))")
     try:
-        bad = lib.eval_cases("C12", "Base Decimal Tree TreeEq Eq OpenRange", defs, cases + [canary], "chk",
-                             shard=120)
+        # one pass: model == implementation AND (C12v) value of the output == value of the input inside `shaped`
+        bad = lib.eval_cases("C12", C12V_IMPORTS, defs, cases + [canary], "chk_all", shard=120)
         assert len(cases) in bad, "canary not detected"
-        for i in bad:
-            if i < len(cases):
-                res.disagreements.append(payloads[i])
+        real_bad = [i for i in bad if i < len(cases)]
+        n_fail0 = len(res.failures)
+        if real_bad:      # attribute each failing case to the check(s) it fails
+            sub = [cases[i] for i in real_bad]
+            for j in lib.eval_cases("C12", C12V_IMPORTS, defs, sub, "chk", shard=120):
+                res.disagreements.append(payloads[real_bad[j]])
+            for j in lib.eval_cases("C12", C12V_IMPORTS, defs, sub, "chk_value", shard=120):
+                res.failures.append((dict(payloads[real_bad[j]], why="C12v: input inside the guard `shaped`, but "
+                                          "the value (Coq holds_full) of the implementation's output differs from "
+                                          "the input's"), None))
+        c12v_guard_coverage(res, inputs_g, dist, len(res.failures) - n_fail0)
     except Exception as e:
         res.model_error = "%s: %s" % (type(e).__name__, e)
     return res
@@ -581,11 +680,18 @@ def correspond(model_ok, res):
 SPEC = {
     "id": "C12",
     "targets": ["props/C12.vo"],
-    "model_targets": ["model/OpenRange.vo", "model/TreeEq.vo"],
+    "model_targets": ["model/OpenRange.vo", "model/TreeEq.vo", "model/OpenRangeValue.vo"],
     "module": "C12",
     "theorems": ["C12_total", "C12_no_comparison_left", "C12_conversion", "C12_copy_drops_name_only",
                  "C12_merge_structure", "C12_and_node", "C12_plain_node",
                  "C12_merge_steps_preserve_conjunction", "C12_wildcard"],
+    # the value-level statement (input against output, whole tree) and the exact copy of the untouched nodes
+    "more": [{"module": "C12v", "target": "props/C12v.vo",
+              "theorems": ["C12_value_preserved", "C12_value_preserved_one_value", "C12_comparison_value",
+                           "C12_untouched_nodes", "C12_untouched_nodes_any", "C12_exact_conversion",
+                           "C12_untouched_wf_needed", "C12v_wild_unbounded_needed", "C12v_layout_blind_needed",
+                           "C12v_shaped_nested_needed", "C12v_shaped_wf_needed", "C12v_single_value_needed",
+                           "C12v_any_relation", "C12v_empty_range"]}],
     "correspond": correspond,
     "statement": "OpenRangeTransformer never fails and leaves no From/To; without merging the output is the input "
                  "where exactly the comparisons became the Range with the same bound (converted), same "
@@ -595,7 +701,43 @@ SPEC = {
                  "sides, until none applies; non-range operands (boosted/fielded ranges included) are kept; the "
                  "conjunction has the same truth for every value of any type with any order relation, any "
                  "valuation of bounds with * unbounded, any truth of opaque operands; every other node keeps its "
-                 "children one to one",
+                 "children one to one. C12v.v, INPUT AGAINST OUTPUT: with holds_full (From x = v > x / v >= x, To "
+                 "likewise, Range = both conditions with * as no condition, And all, Or any, Not/Prohibit complement, "
+                 "Plus/groups/Boost transparent, SearchField selects the field whose value is compared, "
+                 "UnknownOperation = And or Or for BOTH default operators, BoolOperation = the Lucene boolean query, "
+                 "terms and approximate matches opaque atoms) the output of the transformer has the truth value of "
+                 "the input tree, for every tree whose bounds are terms or signed terms and whose approximate "
+                 "matches hold a term with a constructor-consistent degree (guard `shaped`: the shapes the grammar rules "
+                 "for ranges, comparisons and approximate matches build — stated, not proved, for all parsed queries; "
+                 "evaluated by Coq on every generated input and on the parsed examples), any "
+                 "nesting of operations, every assignment of values to fields, every truth of the atoms, any value "
+                 "type and ANY relation as the order, merging or not, any add_head (C12_value_preserved; the "
+                 "conversion step spelled out in C12_comparison_value); every node that is not a comparison is copied "
+                 "with the same class, own attributes, implicit flag, pos/size/head/tail, no name, over the outputs "
+                 "of its children in order, provided it satisfies the constructors' invariant wf_node "
+                 "(C12_untouched_nodes; without the invariant the attributes are those of EqSpec.reinit, "
+                 "C12_untouched_nodes_any / C12_exact_conversion)",
+    "level_text": "Coq proof (full). C12.v: totality, no comparison left, the conversion and merge relations (Conv, "
+                  "merge_steps, fully_merged), merge steps preserve the conjunction of the converted operands. "
+                  "C12v.v closes the two gaps of C12.v's statements: (a) C12_value_preserved links the VALUES of the "
+                  "input (comparisons read as conditions v > x, v >= x, v < x, v <= x) to those of the output (ranges) "
+                  "through every operation, wrapper and field, with merging (C12's merge_steps_conj reused on the "
+                  "whole-tree semantics) or not; hypotheses: the wildcard is read as 'no bound' "
+                  "(C12v_wild_unbounded_needed), bounds and atoms are not read through their layout "
+                  "(C12v_layout_blind_needed: add_head lands in the layout of the converted bound), the guard `shaped` "
+                  "(C12v_shaped_nested_needed: a comparison inside an atom such as Fuzzy(From(a)); "
+                  "C12v_shaped_wf_needed: a Fuzzy whose degree was reassigned after construction), one value per "
+                  "field context (C12v_single_value_needed: with a multi-valued field [1 TO *] AND [* TO 5] -> "
+                  "[1 TO 5] is not an equivalence); NO order law is assumed (C12v_any_relation; C12v_empty_range: "
+                  "[* TO 3] AND [4 TO *] -> [4 TO 3], both unsatisfiable for the usual order). (b) "
+                  "C12_untouched_nodes: attributes, implicit flag and layout of every copied node are unchanged under "
+                  "wf_node, which is necessary (C12_untouched_wf_needed: Fuzzy(Word('a')) with .degree reassigned to "
+                  "2 is copied with degree 0.5 — replayed on the implementation on every run; not a defect: every "
+                  "constructor establishes the invariant). Non-vacuity: the theorem's guard and conclusion are "
+                  "evaluated by Coq on 'a:>=1 AND a:<5 AND b:[* TO 3} OR NOT c:>2' and 'a:(>=1 AND <5 AND [* TO 3}) OR "
+                  "NOT c:>2' (parsed by the Coq parser model), merge on/off, over 343 value triples; on every run the "
+                  "harness evaluates guard and conclusion (Coq holds_full) on the implementation's outputs for all "
+                  "generated inputs. Object identity ('input not modified', no shared node) by snapshots.",
     "trusted_base": [
         "Coq 8.16.1 kernel (vm_compute for table facts, examples and correspondence; no native_compute)",
         "no axioms (Print Assumptions: closed under the global context)",
@@ -608,5 +750,10 @@ SPEC = {
     "assumptions": ["trees contain only luqum.tree classes; no node object occurs at two positions",
                     "single-valued field semantics: one value x per field for a whole AND (for multi-valued "
                     "fields merging two ranges is not an equivalence; the property text speaks of 'the value')",
-                    "layout of a merged-away range (its head/tail) is dropped by the code: not part of C12"],
+                    "layout of a merged-away range (its head/tail) is dropped by the code: not part of C12",
+                    "C12v: the readings of bounds and atoms do not depend on layout or attached names, `*` is read "
+                    "as 'no bound', and the tree is inside `shaped` (bounds are terms or signed terms, approximate "
+                    "matches hold a term and a constructor-consistent degree) — each shown necessary by a witness",
+                    "C12v: the meaning given to BoolOperation is Meaning.v's Lucene boolean query; UnknownOperation is "
+                    "proved for both default operators"],
 }
